@@ -59,6 +59,16 @@ def check_c19(core, rng, n):
         seed = rng.randrange(10 ** 6)
         numpy_env = (k % 2 == 1)
         env = core.StepEnvNumpy(seed, 0, tick, 1000) if numpy_env else core.StepEnv(seed, 0, tick, 1000)
+        # where the book lives: mid-range, at the bottom of the price range (bids down to price 0, so that published bid levels run past zero) or at its top
+        zone = ('mid', 'mid', 'low', 'high')[(k // 2) % 4]
+        top = (2 ** 32 - 1) // tick - 14
+
+        def pick_price(bid):
+            if zone == 'low':
+                return rng.randrange(0 if bid else 1, 12) * tick
+            if zone == 'high':
+                return (top + rng.randrange(0, 12)) * tick
+            return (40 + rng.randrange(0, 12)) * tick
         calls = []
         rows = []      # per step: documented quantities from the live orders
         tvs = []
@@ -72,7 +82,7 @@ def check_c19(core, rng, n):
                 for _ in range(rng.randrange(0, 7)):
                     bid = rng.random() < 0.5
                     vol = rng.randrange(1, 30)
-                    price = (40 + rng.randrange(0, 12)) * tick
+                    price = pick_price(bid)
                     batch.append((bid, vol, rng.randrange(5), price))
                     calls.append(('limit', bid, vol, price))
                 if numpy_env and kind == 'instructions' and (batch or n_known):
@@ -102,7 +112,7 @@ def check_c19(core, rng, n):
                         env.cancel_order(oid)
             if kind == 'mixed' and n_known and not numpy_env and rng.random() < 0.4:
                 oid = rng.randrange(n_known)
-                np_, nv = rng.choice([None, (40 + rng.randrange(0, 12)) * tick]), rng.choice([None, rng.randrange(1, 30)])
+                np_, nv = rng.choice([None, pick_price(bool(env.get_orders()[oid][0]))]), rng.choice([None, rng.randrange(1, 30)])
                 calls.append(('modify', oid, np_, nv))
                 env.modify_order(oid, np_, nv)
             env.step()
